@@ -15,16 +15,16 @@ def load_units(names=None):
 # property -> units whose obligations (clauses tagged with the property) decide it
 PROP_UNITS = {
     'C01': ['deps', 'lemmas', 'cbc', 'pcbc', 'ige', 'cfb', 'cfb8', 'ofb', 'ctr', 'belt', 'cts'],
-    'C02': ['deps', 'cbc', 'pcbc', 'ige'],
-    'C03': ['deps', 'cfb', 'cfb8', 'ofb'],
-    'C04': ['ctr'],
-    'C05': ['cts'],
-    'C06': ['belt'],
+    'C02': ['deps', 'cbc', 'pcbc', 'ige', 'lemmas'],
+    'C03': ['deps', 'cfb', 'cfb8', 'ofb', 'lemmas'],
+    'C04': ['ctr', 'lemmas'],
+    'C05': ['cts', 'lemmas'],
+    'C06': ['belt', 'lemmas'],
     'C07': ['deps', 'lemmas', 'cbc', 'pcbc', 'ige', 'cfb', 'cfb8', 'ofb', 'ctr', 'belt'],
     'C08': ['deps', 'lemmas', 'cfb', 'cfb8', 'ofb', 'ctr', 'belt'],
     'C09': ['lemmas', 'cbc', 'pcbc', 'ige', 'cfb', 'cfb8', 'ofb', 'ctr', 'belt'],
-    'C10': ['deps', 'ctr', 'belt'],
-    'C11': ['deps', 'ctr', 'belt'],
+    'C10': ['deps', 'ctr', 'belt', 'lemmas'],
+    'C11': ['deps', 'ctr', 'belt', 'lemmas'],
     'C12': ['deps', 'cbc', 'pcbc', 'ige', 'cfb', 'cfb8', 'ofb', 'ctr', 'belt', 'cts'],
     'C13': ['deps', 'cts', 'cbc', 'pcbc', 'ige', 'cfb', 'cfb8', 'ofb', 'ctr', 'belt'],
     'C14': ['deps', 'lemmas', 'cts', 'ofb', 'cfb', 'ctr', 'belt', 'cbc'],
